@@ -165,6 +165,9 @@ pub struct SockScenario {
     pub policy: u32,
     pub sched_seed: u64,
     pub tokio_seed: u64,
+    /// Start value of std's hash keys on the run's thread (iteration order of the product's HashMaps).
+    #[serde(default)]
+    pub hash_seed: u64,
     pub max_steps: u64,
 }
 
@@ -489,6 +492,7 @@ pub fn generate(seed: u64) -> SockScenario {
         policy: g.rng.below(4) as u32,
         sched_seed: root.sub("sched").next_u64(),
         tokio_seed: root.sub("tokio").next_u64(),
+        hash_seed: root.sub("hash").next_u64() | 1,
         max_steps: 80_000,
     }
 }
